@@ -1,1 +1,229 @@
--- property theorems of C05 (not built yet)
+/-
+  C05 — spectral binning is an overlap-weighted mean of the native spectrum.
+
+  All theorems are about the definitions of `TaurexModel/Binning.lean` that `driver_c05` executes on `Float`
+  (`fluxBinVal`, `fluxBinErr`, `fluxBindown`, `nativeBins`, `targetBins`, `window`, `histMean1`, `histMeanN`,
+  `nativeBindown`), here at the carrier `ℝ`.  The non-vacuity examples use `nvRows` (`Proofs/C05NV.lean`): five
+  contiguous native bins `[0.5,1.5] … [4.5,5.5]` with values 10 … 50; targets `[2,4]` (inside), `[4.5,7.5]`
+  (straddling the upper end), `[6,8]` (outside).  Guard on the native grid ("ordered bins"): after sorting by centre
+  the lower edges and the upper edges `centre ∓ width/2` are each non-decreasing, widths are non-negative; target
+  bins have positive width.  The guard `0 < Σ overlap` is the property's "target bin that overlaps the native
+  grid"; it also keeps the code's `weight/sum_weight` away from Mathlib's `x/0 = 0`.
+-/
+import Proofs.C05NV
+
+namespace Taurex.C05
+open Taurex.Binning List
+
+/-- **window_is_overlap** (refinement).  On ordered native bins the two `searchsorted` calls, the clamps and the
+    skip test of `FluxBinner.bindown` select exactly the native bins that can overlap the target `[a, b]`:
+    a skipped target overlaps nothing; otherwise every bin before `start` and after `stop` has zero overlap, and
+    every bin inside the slice `[start : stop+1]` gets the weight `overlap / (b - a)`. -/
+theorem window_is_overlap (rows : List (Row ℝ)) (a b : ℝ) (hne : rows ≠ []) (hord : OrderedBins rows)
+    (hw : ∀ r ∈ rows, r.lo ≤ r.hi) (hab : a < b) :
+    (window rows a b = none → ∀ r ∈ rows, overlap a b r = 0) ∧
+    (∀ s t, window rows a b = some (s, t) →
+      (∀ r ∈ rows.take s, overlap a b r = 0) ∧ (∀ r ∈ rows.drop (t + 1), overlap a b r = 0) ∧
+      (∀ r ∈ slice rows s t, weight a b r = overlap a b r / (b - a))) := by
+  refine ⟨fun h => window_none rows a b hne hord h, fun s t h => ?_⟩
+  obtain ⟨W1, W2, _⟩ := window_some rows a b hne hord s t h
+  exact ⟨W1, W2, window_weights rows a b hne hord hw hab s t h⟩
+
+example : window nvRows 2 4 = some (1, 3) := by
+  norm_num [window, nvRows, Taurex.Interp.searchRight, Row.lo, Row.hi, List.countP_cons, List.getD]
+
+/-- **flux_is_overlap_mean**: for every target bin that overlaps the native grid the code returns
+    `Σ overlap·s / Σ overlap` over *all* native bins. -/
+theorem flux_is_overlap_mean (val : Row ℝ → ℝ) (rows : List (Row ℝ)) (a b : ℝ) (hne : rows ≠ [])
+    (hord : OrderedBins rows) (hw : ∀ r ∈ rows, r.lo ≤ r.hi) (hab : a < b)
+    (hpos : 0 < sumL (rows.map (overlap a b))) :
+    fluxBinVal val rows a b = overlapMeanSpec val rows a b :=
+  flux_eq_spec val rows a b hne hord hw hab hpos
+
+example : fluxBinVal Row.s nvRows 2 4 = overlapMeanSpec Row.s nvRows 2 4 :=
+  flux_is_overlap_mean Row.s nvRows 2 4 (by simp [nvRows]) nvRows_ordered nvRows_widths (by norm_num) nv_inside_pos
+
+/-- the straddling target `[4.5, 7.5]` sees only the last native bin: its value is 50 -/
+example : overlapMeanSpec Row.s nvRows 4.5 7.5 = 50 := by
+  norm_num [nvRows, overlapMeanSpec, sumL, overlap, mn, mx, Row.lo, Row.hi]
+
+/-- **const_preserved**: a constant spectrum stays constant. -/
+theorem const_preserved (val : Row ℝ → ℝ) (rows : List (Row ℝ)) (a b k : ℝ) (hne : rows ≠ [])
+    (hord : OrderedBins rows) (hw : ∀ r ∈ rows, r.lo ≤ r.hi) (hab : a < b)
+    (hpos : 0 < sumL (rows.map (overlap a b))) (hk : ∀ r ∈ rows, val r = k) :
+    fluxBinVal val rows a b = k := by
+  rw [flux_eq_spec val rows a b hne hord hw hab hpos]
+  exact spec_const val rows a b k hk hpos
+
+example : fluxBinVal (fun _ => 7) nvRows 2 4 = 7 :=
+  const_preserved _ nvRows 2 4 7 (by simp [nvRows]) nvRows_ordered nvRows_widths (by norm_num) nv_inside_pos
+    (fun _ _ => rfl)
+
+/-- **between_min_max**: the binned value lies between the smallest and largest native values among the bins
+    that overlap the target. -/
+theorem between_min_max (val : Row ℝ → ℝ) (rows : List (Row ℝ)) (a b m M : ℝ) (hne : rows ≠ [])
+    (hord : OrderedBins rows) (hw : ∀ r ∈ rows, r.lo ≤ r.hi) (hab : a < b)
+    (hpos : 0 < sumL (rows.map (overlap a b)))
+    (hb : ∀ r ∈ rows, 0 < overlap a b r → m ≤ val r ∧ val r ≤ M) :
+    m ≤ fluxBinVal val rows a b ∧ fluxBinVal val rows a b ≤ M := by
+  rw [flux_eq_spec val rows a b hne hord hw hab hpos]
+  exact spec_between val rows a b m M hb hpos
+
+/-- bins 2, 3, 4 overlap `[2, 4]`; the result is between 20 and 40 although the spectrum ranges over 10..50 -/
+example : 20 ≤ fluxBinVal Row.s nvRows 2 4 ∧ fluxBinVal Row.s nvRows 2 4 ≤ 40 := by
+  refine between_min_max Row.s nvRows 2 4 20 40 (by simp [nvRows]) nvRows_ordered nvRows_widths (by norm_num)
+    nv_inside_pos ?_
+  intro r hr hpos
+  rw [overlap_pos_iff] at hpos
+  simp only [nvRows, List.mem_cons, List.not_mem_nil, or_false] at hr
+  rcases hr with rfl | rfl | rfl | rfl | rfl <;>
+    first | (norm_num [Row.lo, Row.hi] at hpos; done) | norm_num
+
+/-- **linear**: binning is linear in the spectrum (for the code this needs no guard at all: the weights do not
+    depend on the spectrum). -/
+theorem linear (x y : Row ℝ → ℝ) (rows : List (Row ℝ)) (a b k₁ k₂ : ℝ) :
+    fluxBinVal (fun r => k₁ * x r + k₂ * y r) rows a b =
+      k₁ * fluxBinVal x rows a b + k₂ * fluxBinVal y rows a b :=
+  flux_linear x y rows a b k₁ k₂
+
+example : fluxBinVal (fun r => 2 * r.s + 3 * r.e) nvRows 2 4 =
+    2 * fluxBinVal Row.s nvRows 2 4 + 3 * fluxBinVal Row.e nvRows 2 4 := linear _ _ _ _ _ _ _
+
+/-- **error_quadrature**: binned uncertainties follow the same weights in quadrature,
+    `sqrt(Σ overlap²·e²) / Σ overlap`. -/
+theorem error_quadrature (err : Row ℝ → ℝ) (rows : List (Row ℝ)) (a b : ℝ) (hne : rows ≠ [])
+    (hord : OrderedBins rows) (hw : ∀ r ∈ rows, r.lo ≤ r.hi) (hab : a < b)
+    (hpos : 0 < sumL (rows.map (overlap a b))) :
+    fluxBinErr err rows a b = quadErrSpec err rows a b :=
+  fluxErr_eq_quad err rows a b hne hord hw hab hpos
+
+example : fluxBinErr Row.e nvRows 2 4 = quadErrSpec Row.e nvRows 2 4 :=
+  error_quadrature Row.e nvRows 2 4 (by simp [nvRows]) nvRows_ordered nvRows_widths (by norm_num) nv_inside_pos
+
+/-- **outside_is_zero**: a target bin strictly outside every native bin (beyond either end of the native range, or
+    inside a gap) comes out as 0 — and it does so without any division: the bin is skipped or its slice is
+    empty.  Beyond either end it is always skipped, so the binned error is 0 as well. -/
+theorem outside_is_zero (val : Row ℝ → ℝ) (rows : List (Row ℝ)) (a b : ℝ) (hne : rows ≠ [])
+    (hord : OrderedBins rows) (hout : ∀ r ∈ rows, r.hi < a ∨ b < r.lo) :
+    fluxBinVal val rows a b = 0 ∧ (∀ s t, window rows a b = some (s, t) → slice rows s t = []) :=
+  flux_outside_zero val rows a b hne hord hout
+
+theorem outside_range_is_skipped (rows : List (Row ℝ)) (a b : ℝ) (hne : rows ≠ [])
+    (hout : (∀ r ∈ rows, r.hi < a) ∨ (∀ r ∈ rows, b < r.lo)) :
+    window rows a b = none ∧ (∀ val, fluxBinVal val rows a b = 0) ∧ (∀ err, fluxBinErr err rows a b = 0) := by
+  have h := window_none_of_outside rows a b hne hout
+  refine ⟨h, fun val => ?_, fun err => ?_⟩
+  · unfold fluxBinVal; rw [h]
+  · unfold fluxBinErr fluxBinNoise; rw [h]
+
+/-- the target `[6, 8]` lies above the native range `[0.5, 5.5]` -/
+example : fluxBinVal Row.s nvRows 6 8 = 0 :=
+  ((outside_range_is_skipped nvRows 6 8 (by simp [nvRows]) (Or.inl (by
+    intro r hr
+    simp only [nvRows, List.mem_cons, List.not_mem_nil, or_false] at hr
+    rcases hr with rfl | rfl | rfl | rfl | rfl <;> norm_num [Row.hi]))).2.1) Row.s
+
+/-- **perm_native**: the result does not depend on the order of the native points (distinct wavenumbers); explicit
+    widths, values and errors travel with their point. -/
+theorem perm_native (explicit : Bool) (val : Row ℝ → ℝ) (rows₁ rows₂ : List (Row ℝ)) (targets : List (TBin ℝ))
+    (hp : rows₁ ~ rows₂) (hd : (rows₁.map Row.c).Nodup) :
+    fluxBindown explicit val rows₁ targets = fluxBindown explicit val rows₂ targets := by
+  unfold fluxBindown
+  rw [nativeBins_perm explicit hp hd]
+
+example : fluxBindown true Row.s [(⟨2, 1, 20, 0⟩ : Row ℝ), ⟨1, 1, 10, 0⟩, ⟨3, 1, 30, 0⟩] [⟨2, 2⟩] =
+    fluxBindown true Row.s [(⟨1, 1, 10, 0⟩ : Row ℝ), ⟨2, 1, 20, 0⟩, ⟨3, 1, 30, 0⟩] [⟨2, 2⟩] :=
+  perm_native true Row.s _ _ _ (List.Perm.swap _ _ _) (by norm_num)
+
+/-- **perm_target**: the binner built from a permuted target grid is the same binner (distinct wavenumbers), so the
+    output — reported in ascending target order — is the same. -/
+theorem perm_target (mode : WidthMode ℝ) (ts₁ ts₂ : List (TBin ℝ)) (hp : ts₁ ~ ts₂)
+    (hd : (ts₁.map TBin.c).Nodup) (explicit : Bool) (val : Row ℝ → ℝ) (rows : List (Row ℝ)) :
+    targetBins mode ts₁ = targetBins mode ts₂ ∧
+    fluxBindown explicit val rows (targetBins mode ts₁) = fluxBindown explicit val rows (targetBins mode ts₂) := by
+  rw [targetBins_perm mode hp hd]
+  exact ⟨rfl, rfl⟩
+
+example : targetBins WidthMode.array [(⟨5, 1⟩ : TBin ℝ), ⟨2, 3⟩] = targetBins WidthMode.array [⟨2, 3⟩, ⟨5, 1⟩] :=
+  (perm_target WidthMode.array _ _ (List.Perm.swap _ _ _) (by norm_num) true Row.s []).1
+
+/-- the sorted native bins and target bins are ascending in wavenumber and are a permutation of the input
+    (nothing is dropped, no column is mixed) -/
+theorem sorted_is_perm (rows : List (Row ℝ)) (ts : List (TBin ℝ)) :
+    nativeBins true rows ~ rows ∧ (nativeBins true rows).Pairwise (fun r r' => r.c ≤ r'.c) ∧
+    targetBins WidthMode.array ts ~ ts ∧ (targetBins WidthMode.array ts).Pairwise (fun t t' => t.c ≤ t'.c) :=
+  ⟨sortBy_perm Row.c rows, sortBy_sorted Row.c rows, sortBy_perm TBin.c ts, sortBy_sorted TBin.c ts⟩
+
+/-- the guard covers the property's "non-overlapping ordered bins": sorted bins of non-negative width that do not
+    overlap (gaps allowed, touching allowed) are ordered bins.  (Mid-point widths of linear / logarithmic /
+    constant-R grids overlap to second order; for those the guard is evaluated numerically on every generated
+    case by the harness and by the model.) -/
+theorem disjoint_bins_are_ordered (rows : List (Row ℝ)) (hw : ∀ r ∈ rows, r.lo ≤ r.hi)
+    (hdis : rows.Pairwise (fun r r' => r.hi ≤ r'.lo)) : OrderedBins rows :=
+  disjoint_bins_ordered rows hw hdis
+
+example : OrderedBins nvRows := disjoint_bins_are_ordered nvRows nvRows_widths (by
+  unfold nvRows; simp [Row.lo, Row.hi]; norm_num)
+
+/-- **perm_spec**: the overlap-weighted mean itself does not depend on the order of the native bins (no
+    distinctness needed). -/
+theorem perm_spec (val : Row ℝ → ℝ) (rows₁ rows₂ : List (Row ℝ)) (hp : rows₁ ~ rows₂) (a b : ℝ) :
+    overlapMeanSpec val rows₁ a b = overlapMeanSpec val rows₂ a b :=
+  spec_perm val hp a b
+
+example : overlapMeanSpec Row.s [(⟨2, 1, 20, 0⟩ : Row ℝ), ⟨1, 1, 10, 0⟩] 0 3 =
+    overlapMeanSpec Row.s [(⟨1, 1, 10, 0⟩ : Row ℝ), ⟨2, 1, 20, 0⟩] 0 3 :=
+  perm_spec Row.s _ _ (List.Perm.swap _ _ _) 0 3
+
+/-- **hist_perm**: the histogram binner does not depend on the order of the native points. -/
+theorem hist_perm_native (val : Row ℝ → ℝ) (rows₁ rows₂ : List (Row ℝ)) (hp : rows₁ ~ rows₂) (nb : List ℝ) :
+    histMean1 val rows₁ nb = histMean1 val rows₂ nb ∧ histMeanN val rows₁ nb = histMeanN val rows₂ nb :=
+  hist_perm val hp nb
+
+example : histMean1 Row.s [(⟨5, 0, 20, 0⟩ : Row ℝ), ⟨3, 0, 10, 0⟩] [4, 8] =
+    histMean1 Row.s [(⟨3, 0, 10, 0⟩ : Row ℝ), ⟨5, 0, 20, 0⟩] [4, 8] :=
+  (hist_perm_native Row.s _ _ (List.Perm.swap _ _ _) [4, 8]).1
+
+/-- **hist_mean**: the histogram binner (`util.bindown`, both its 1-D `np.histogram` path and its N-D
+    `np.digitize` path) returns, for every bin, the plain mean `Σ s / count` of the native points lying strictly
+    between the two mid-point edges of the bin — provided no native point sits exactly on an edge (the two paths
+    use different tie conventions there).  An empty bin is the code's 0/0; the harness reports it from the
+    malformed stream. -/
+theorem hist_mean (val : Row ℝ → ℝ) (rows : List (Row ℝ)) (nb : List ℝ)
+    (hno : ∀ r ∈ rows, ∀ e ∈ histEdges nb, r.c ≠ e) :
+    histMean1 val rows nb = (edgePairs (histEdges nb)).map (fun p =>
+      ((rows.filter (fun r => decide (p.1 < r.c ∧ r.c < p.2.1))).map val).sum /
+        ((rows.filter (fun r => decide (p.1 < r.c ∧ r.c < p.2.1))).length : ℝ)) ∧
+    histMeanN val rows nb = histMean1 val rows nb := by
+  have key : ∀ p ∈ edgePairs (histEdges nb),
+      rows.filter (fun r => inHist p.1 p.2.1 p.2.2 r.c) = rows.filter (fun r => decide (p.1 < r.c ∧ r.c < p.2.1)) ∧
+      rows.filter (fun r => inDigit p.1 p.2.1 r.c) = rows.filter (fun r => decide (p.1 < r.c ∧ r.c < p.2.1)) := by
+    intro p hp
+    have hm := mem_edgePairs (histEdges nb) p hp
+    exact hist_filters_agree rows p.1 p.2.1 p.2.2 (fun r hr => ⟨hno r hr _ hm.1, hno r hr _ hm.2⟩)
+  constructor
+  · unfold histMean1
+    apply List.map_congr_left
+    intro p hp
+    rw [(key p hp).1, meanOf_eq]
+  · unfold histMean1 histMeanN
+    apply List.map_congr_left
+    intro p hp
+    rw [(key p hp).1, (key p hp).2]
+
+/-- target points 4, 8, 12 give the edges 2, 6, 10, 14; the native points 3, 5 / 7, 9 / 11 fall in the three bins
+    and their plain means are 15, 35, 50 -/
+example : histMean1 Row.s [(⟨3, 0, 10, 0⟩ : Row ℝ), ⟨5, 0, 20, 0⟩, ⟨7, 0, 30, 0⟩, ⟨9, 0, 40, 0⟩, ⟨11, 0, 50, 0⟩]
+    [4, 8, 12] = [15, 35, 50] := by
+  have e : histEdges ([4, 8, 12] : List ℝ) = [2, 6, 10, 14] := by
+    norm_num [histEdges, midPts]
+  unfold histMean1
+  rw [e]
+  norm_num [edgePairs, meanOf, sumL, inHist, List.filter_cons, List.replicate]
+
+/-- **native_identity**: the native binner returns its input unchanged. -/
+theorem native_identity {β : Type} (x : β) : nativeBindown x = x := rfl
+
+example : nativeBindown ([1, 2, 3] : List ℝ) = [1, 2, 3] := native_identity _
+
+end Taurex.C05
